@@ -22,6 +22,10 @@ CLAIMED = {
    text="Coq theorems over an executable model of PDU/Packet ownership in which every layer object has an identity: for every program over 18 operations (construct, clone/copy, copy and move assignment, move construction, inner_pdu(ptr/ref), release_inner_pdu, operator/=, delete, field edits, Packet wrap/own/copy/move/release//=) every identity is live exactly once or destroyed exactly once (one owner, no double free, no leak once the roots are destroyed), parent links designate the owner, clones and copy-assignments are deep and equal to the source (including a shorter source), and an operation changes only the variables it names. The extracted model and real libtins objects (9 layer classes + Packet) run the same programs; an independent value-semantics reference, address-aliasing checks, ASan and LSan judge the C++ directly.",
    note="Trusted: Coq kernel, extraction, harness/h_tree.cpp; object identities exist only in the model — in C++ ownership is observed through addresses, ASan and LSan, the allocator itself is not modelled; the moved-from object's own fields are unspecified and reset by the script. One genuine defect was repaired (fix: copy-assignment from a PDU without inner layers).",
    tech="Coq proof (counting invariant over all programs) + model/code correspondence + reference oracle under ASan/LSan", ref="3/C12"),
+ 'C16': dict(
+   text="Coq theorems over an executable model of IPv4Address, HWAddress<n>/IPv6Address (byte buffers), AddressRange and its iterator: printed text parses back to the same address (HW for every n>=1; IPv4 against a model of glibc's inet_pton), byte-wise ordering/equality equal numeric order of the big-endian value, contains() is exactly first<=x<=last, and — proved once for any address type with a valuation into [0,M) and instantiated for IPv4 (M=2^32) and n-byte buffers (M=256^n) — iterating a range visits each address (each host address for prefix ranges) exactly once in increasing order and terminates for EVERY range size, including ranges ending at the all-ones address and the whole IPv4 space. The model is tied to the code by running extracted model and real classes on the same scripts; an independent Python reference judges the C++ directly.",
+   note="Trusted: Coq kernel, extraction, harness/h_addr.cpp, glibc inet_pton(AF_INET) as modelled (validated by correspondence), glibc IPv6 text functions external (round trip checked differentially only). One defect repaired (fix: IPv4 whole-space iteration); the HW text parser's accept set is a recorded known finding (C16_hw_accept_refuted).",
+   tech="Coq proof (abstract iterator theorem by induction on distance, codec round trips) + model/code correspondence + reference oracle", ref="3/C16"),
 }
 ALL = ['C%02d' % i for i in range(1, 20)]
 NA_REASON = "check not built yet in this session (machinery is being extended property by property; see DESIGN.md section 7)"
